@@ -285,6 +285,110 @@ def step' (st : Unit) (line : String) : Unit × String :=
     | _, _, _, _, _ => (st, "BAD cval")
   | _ => step st line
 
-def run : IO UInt32 := Driver.runLoop () step'
+/-! ## install sequences on one node -/
+
+/-- one installed fabric as the IMPLEMENTATION's answers define it -/
+structure Row where
+  idx : Nat
+  fid : Nat
+  root : Cert
+  node : Nat
+deriving Inhabited
+
+structure St where
+  tbl : List Row := []
+deriving Inhabited
+
+def fmtTbl (t : List Row) : String :=
+  if t.isEmpty then "-"
+  else "+".intercalate (t.map fun r => s!"{r.idx}:{r.fid}:{r.root.pubKey}:{r.node}")
+
+def entriesOf (t : List Row) : List FabricEntry :=
+  t.map fun r => { fabricId := r.fid, rootPubKey := r.root.pubKey }
+
+def stepS (st : St) (line : String) : St × String :=
+  let (op, out) := splitArrow line
+  let toks := words op
+  match toks with
+  | "case" :: _ => ({}, "case")
+  | "inst" :: ts :: rest =>
+    match parseTime ts, (kv "root" rest).bind parseRec, (kv "noc" rest).bind parseRec,
+          (kv "icac" rest).bind optRec with
+    | some t, some root, some noc, some icac =>
+      let ows := words out
+      let res := " ".intercalate (ows.filter fun w => !(w.startsWith "tbl="))
+      let tblImpl := (kv "tbl" ows).getD "?"
+      let fabs := entriesOf st.tbl
+      let rootOk := addTrustedRoot t root
+      let model :=
+        if !rootOk then "root:InvalidCommand"
+        else match addNoc t root 9 fabs noc icac with
+          | .ok (f, n) => s!"ok fab={f} node={n}"
+          | .error e => e.name
+      -- specification on the whole installed set
+      let want := decide (RootValid t root) && decide (InstallValid t root 9 fabs noc icac)
+      let acc := accepted res
+      let idx? := (kv "idx" ows).bind String.toNat?
+      let st' : St :=
+        if acc then
+          { tbl := st.tbl ++ [{ idx := idx?.getD 0, fid := (fabricIdOf noc.subject).getD 0, root := root,
+                                node := (nodeIdOf noc.subject).getD 0 }] }
+        else st
+      -- a full fabric table is a resource limit outside the property's sentence: a refusal for that reason is
+      -- never wrong (the table must stay as it is)
+      if res = "NocFabricTableFull" then
+        (if tblImpl = fmtTbl st.tbl then (st, "ok") else (st, s!"ORA a refused AddNOC changed the fabric table: {tblImpl}")) else
+      let ora : Option String :=
+        if want ≠ acc then
+          some s!"spec={if want then "valid" else "invalid"} impl={res} installed={fmtTbl st.tbl}"
+        else if acc ∧ ¬ res.startsWith
+            s!"ok fab={(fabricIdOf noc.subject).getD 0} node={(nodeIdOf noc.subject).getD 0} idx=" then
+          some s!"installed identity differs from the certificate's: {res}"
+        else if acc ∧ (idx? = none ∨ idx? = some 0 ∨ st.tbl.any (fun r => some r.idx == idx?)) then
+          some s!"the new fabric got the index of an installed one: {res}"
+        else if tblImpl ≠ fmtTbl st'.tbl then
+          some s!"fabric table is {tblImpl}, the accepted commands give {fmtTbl st'.tbl}"
+        else none
+      match ora with
+      | some w => (st', s!"ORA {w}")
+      | none =>
+        let resNoIdx := " ".intercalate ((words res).filter fun w => !(w.startsWith "idx="))
+        if model = resNoIdx then (st', "ok") else (st', s!"DIS {model}")
+    | _, _, _, _ => (st, "BAD inst")
+  | "upd" :: ts :: rest =>
+    match parseTime ts, (kv "idx" rest).bind String.toNat?, (kv "noc" rest).bind parseRec,
+          (kv "icac" rest).bind optRec with
+    | some t, some idx, some noc, some icac =>
+      let ows := words out
+      let res := " ".intercalate (ows.filter fun w => !(w.startsWith "tbl="))
+      let tblImpl := (kv "tbl" ows).getD "?"
+      let acc := accepted res
+      match st.tbl.find? (fun r => r.idx == idx) with
+      | none =>
+        if acc then (st, s!"ORA UpdateNOC accepted on a fabric index that is not installed: {res}") else (st, "ok")
+      | some row =>
+        let fv : FabricView := { fabricId := row.fid, root := row.root }
+        let model := match updateNoc t fv 9 noc icac with
+          | .ok (f, n) => s!"ok fab={f} node={n} idx={idx}"
+          | .error e => e.name
+        let want := decide (UpdateValid t fv 9 noc icac)
+        let st' : St :=
+          if acc then
+            { tbl := st.tbl.map fun r => if r.idx == idx then { r with node := (nodeIdOf noc.subject).getD 0 } else r }
+          else st
+        let ora : Option String :=
+          if want ≠ acc then some s!"spec={if want then "valid" else "invalid"} impl={res} fabric={row.idx}:{row.fid}:{row.root.pubKey}"
+          else if acc ∧ res ≠ s!"ok fab={row.fid} node={(nodeIdOf noc.subject).getD 0} idx={idx}" then
+            some s!"UpdateNOC changed another fabric / another identity than the certificate's: {res}"
+          else if tblImpl ≠ fmtTbl st'.tbl then
+            some s!"fabric table is {tblImpl}, the accepted commands give {fmtTbl st'.tbl}"
+          else none
+        match ora with
+        | some w => (st', s!"ORA {w}")
+        | none => if model = res then (st', "ok") else (st', s!"DIS {model}")
+    | _, _, _, _ => (st, "BAD upd")
+  | _ => (st, (step' () line).2)
+
+def run : IO UInt32 := Driver.runLoop ({} : St) stepS
 
 end Driver.C19
